@@ -133,6 +133,58 @@ func c07Script(rng *rand.Rand) (sig, detail string, trace []string, shape string
 		}
 		stats["cancelled_calls_answered_late"] += nGhost
 	}
+	// ---- resumed phase: a QoS 2 publish interrupted on an earlier connection after its PUBREL is taken up again on
+	// this client through its retry handle and waits for PUBCOMP here, next to the fresh calls below
+	var resumedID uint16
+	var resumedDone chan error
+	nResumedReq := 0
+	if rng.Intn(3) == 0 {
+		nResumedReq = 1 // its PUBLISH on the earlier connection is in the peer's log too
+		cliA, connA := scen.NewBase(tr, peer)
+		if err := scen.ConnectBase(cliA); err != nil {
+			return "harness", err.Error(), nil, "", stats
+		}
+		ares := make(chan error, 1)
+		actx, acancel := context.WithTimeout(context.Background(), scen.Watchdog)
+		go func() {
+			ares <- cliA.Publish(actx, &mqtt.Message{Topic: "c7/resumed", QoS: mqtt.QoS2, Payload: []byte("resumed")})
+		}()
+		rin, ok := peer.WaitIn(scen.Watchdog, 1, func(p *mqttref.Packet) bool { return p.Type == mqttref.PUBLISH && p.Topic == "c7/resumed" })
+		if !ok {
+			acancel()
+			return "inconclusive", "resumed publish not seen", tr.Dump(30), "", stats
+		}
+		rid := rin[0].P.ID
+		connA.Send(mqttref.EncAck(mqttref.PUBREC, rid), "rec for the publish to be resumed")
+		if _, ok := peer.WaitIn(scen.Watchdog, 1, func(p *mqttref.Packet) bool { return p.Type == mqttref.PUBREL && p.ID == rid }); !ok {
+			acancel()
+			return "inconclusive", "PUBREL of the publish to be resumed not seen", tr.Dump(30), "", stats
+		}
+		connA.PeerClose("cut after PUBREL")
+		var aerr error
+		select {
+		case aerr = <-ares:
+		case <-time.After(scen.Watchdog):
+			acancel()
+			return "inconclusive", "interrupted publish did not return", tr.Dump(30), "", stats
+		}
+		acancel()
+		cliA.Close()
+		if rh, ok := aerr.(mqtt.ErrorWithRetry); ok {
+			resumedID = rid
+			resumedDone = make(chan error, 1)
+			go func() {
+				cs := tr.Call("resumed-p2", "")
+				err := rh.Retry(context.Background(), cli)
+				tr.Ret(cs, "resumed-p2", "", err)
+				resumedDone <- err
+			}()
+			// its PUBREL goes out again on this connection
+			if _, ok := peer.WaitIn(scen.Watchdog, 2, func(p *mqttref.Packet) bool { return p.Type == mqttref.PUBREL && p.ID == rid }); !ok {
+				return "inconclusive", "resumed PUBREL not seen on the new connection", tr.Dump(30), "", stats
+			}
+		}
+	}
 	n := 1 + rng.Intn(24)
 	if rng.Intn(3) == 0 {
 		n = 1 + rng.Intn(4)
@@ -190,17 +242,23 @@ func c07Script(rng *rand.Rand) (sig, detail string, trace []string, shape string
 	isReq := func(p *mqttref.Packet) bool {
 		return p.Type == mqttref.PUBLISH || p.Type == mqttref.SUBSCRIBE || p.Type == mqttref.UNSUBSCRIBE
 	}
-	in, ok := peer.WaitIn(scen.Watchdog, n+nGhost, isReq)
+	in, ok := peer.WaitIn(scen.Watchdog, n+nGhost+nResumedReq, isReq)
 	if !ok {
-		return "inconclusive", fmt.Sprintf("only %d of %d requests reached the peer", len(in), n+nGhost), tr.Dump(40), "", stats
+		return "inconclusive", fmt.Sprintf("only %d of %d requests reached the peer", len(in), n+nGhost+nResumedReq), tr.Dump(40), "", stats
 	}
 	byTag := map[string]*c07Call{}
 	for _, k := range calls {
 		byTag[k.tag] = k
 	}
 	used := map[uint16]bool{}
+	if resumedID != 0 {
+		used[resumedID] = true
+	}
 	for _, ip := range in {
 		var tag string
+		if ip.P.Type == mqttref.PUBLISH && ip.P.Topic == "c7/resumed" {
+			continue
+		}
 		switch ip.P.Type {
 		case mqttref.PUBLISH:
 			tag = string(ip.P.Payload)
@@ -220,6 +278,14 @@ func c07Script(rng *rand.Rand) (sig, detail string, trace []string, shape string
 			return fail("harness", "unmatched request %v", ip.P)
 		}
 		k.id = ip.P.ID
+		if resumedID != 0 && k.id == resumedID {
+			// the identifier the resumed publish brought along from its earlier connection happens to be the one a
+			// fresh request drew here (identifiers start at a random point per connection): ambiguous, not judged
+			stats["skipped_resumed_id_met_fresh_id"]++
+			cancel()
+			cli.Close()
+			return "", "", nil, "skipped/resumed-id-collision", stats
+		}
 		if used[k.id] {
 			return fail("id-collision", "two concurrent requests carry id %d", k.id)
 		}
@@ -393,6 +459,30 @@ func c07Script(rng *rand.Rand) (sig, detail string, trace []string, shape string
 		}
 		if rng.Intn(4) == 0 {
 			scen.Barrier(cli)
+		}
+	}
+	// ---- the resumed publish gets its PUBCOMP now: it must not have returned before, and it returns after
+	if resumedDone != nil && wrongLenCall < 0 {
+		select {
+		case err := <-resumedDone:
+			return fail("completed-without-own-ack", "the resumed QoS 2 publish (id %d) returned %v before its PUBCOMP was sent", resumedID, err)
+		default:
+		}
+		conn.Send(mqttref.EncAck(mqttref.PUBCOMP, resumedID), "own-resumed")
+		select {
+		case err := <-resumedDone:
+			if err != nil {
+				return fail("disturbed", "the resumed QoS 2 publish (id %d) failed although its PUBCOMP was sent: %v", resumedID, err)
+			}
+			stats["resumed_qos2_completed_next_to_fresh_calls"]++
+		case <-time.After(scen.Watchdog):
+			tr.Mu.Lock()
+			parked := conn.Parked && conn.BufferedLocked() == 0
+			tr.Mu.Unlock()
+			if parked {
+				return fail("never-completes", "the PUBCOMP of the resumed QoS 2 publish (id %d) was consumed by the client (reader parked on empty input) but its Retry call did not return", resumedID)
+			}
+			return "inconclusive", "resumed publish not returned within the watchdog, reader not parked", tr.Dump(60), "", stats
 		}
 	}
 	// ---- orphans: wait for the acknowledged calls, then Disconnect
